@@ -342,6 +342,17 @@ theorem loader_ring_safe (s : Ring) (h : RingReach Gen.UtxoLoaderFacts.channelSi
 
 example : RingReach Gen.UtxoLoaderFacts.channelSize ⟨0, 0, 0⟩ := .init
 
+/-- a mid-run state: five packs sent, one received (being walked), none finished — the channel of 4 is full, the reader
+    is about to fill buffer 5 -/
+example : RingReach 4 ⟨5, 1, 0⟩ :=
+  have r0 : RingReach 4 ⟨0, 0, 0⟩ := .init
+  have r1 : RingReach 4 ⟨1, 0, 0⟩ := .step r0 (.send ⟨0, 0, 0⟩ (by decide))
+  have r2 : RingReach 4 ⟨1, 1, 0⟩ := .step r1 (.recv ⟨1, 0, 0⟩ (by decide) rfl)
+  have r3 : RingReach 4 ⟨2, 1, 0⟩ := .step r2 (.send ⟨1, 1, 0⟩ (by decide))
+  have r4 : RingReach 4 ⟨3, 1, 0⟩ := .step r3 (.send ⟨2, 1, 0⟩ (by decide))
+  have r5 : RingReach 4 ⟨4, 1, 0⟩ := .step r4 (.send ⟨3, 1, 0⟩ (by decide))
+  .step r5 (.send ⟨4, 1, 0⟩ (by decide))
+
 /-- **loader_ring_needs_two_spare_counterexample.** `CHANNEL_SIZE = BUFFERS_CNT - 1` is not enough: with 6 buffers and a
     channel of 5 the reader reaches pack 6 (buffer 0 again) while the consumer is still walking pack 0. -/
 theorem loader_ring_needs_two_spare_counterexample : ∃ s : Ring, RingReach 5 s ∧ ¬ s.Safe 6 := by
@@ -360,7 +371,8 @@ theorem loader_ring_needs_two_spare_counterexample : ∃ s : Ring, RingReach 5 s
     regenerated by go/cmd/gen_c10) -/
 
 /-- **load_fallback_exact.** With the retry as the current source writes it: whatever the two files contain (either may be
-    missing, cut anywhere, or garbage), `NewUnspentDb` ends with exactly the content of ONE snapshot file — the records
+    missing, cut anywhere, or garbage — PROVIDED every `make(map, …)` / `Memory_Malloc` the loader asks for returns; what it
+    asks for is bounded by `load_memory_bounded` below), `NewUnspentDb` ends with exactly the content of ONE snapshot file — the records
     (in file order), mode bit, height and hash of UTXO.db if it can be read to its end, else of UTXO.old if that can, else
     an empty database in the configured format — and with `totalTxs` / `dataSize` equal to the number / total length of
     these records. Nothing an abandoned attempt has parsed (records waiting in the unsent pack, packs already inserted,
@@ -375,7 +387,7 @@ theorem load_fallback_exact_of_cleans (sh : RetryShape) (h : sh.Cleans) (db old 
     loadDir sh db old c = loadedOf (loadDirSpec db old c) :=
   loadDir_exact sh h db old c
 
-example : (⟨6, 65536, true, false, true, true, true⟩ : RetryShape).Cleans := ⟨by decide, rfl, rfl, rfl, rfl⟩
+example : (⟨6, 65536, true, false, true, true, true, false, false⟩ : RetryShape).Cleans := ⟨by decide, rfl, rfl, rfl, rfl⟩
 
 /-- **truncated_snapshot_detected.** A snapshot file cut at ANY position before its end (inside the header, between two
     records, inside a length prefix, inside a record) is not readable: the loader reaches `fatal_error`, it never takes a
@@ -402,10 +414,65 @@ example : WFSnap ⟨true, 7, List.replicate 32 1, [[1, 2, 3]]⟩ :=
     (everything else as in the source), UTXO.db = two records with the last byte missing and UTXO.old = one record, the
     database opened from UTXO.old also holds the first record of the damaged UTXO.db. -/
 theorem load_retry_needs_rewind_counterexample :
-    (loadDir ⟨6, 65536, false, false, true, true, true⟩
+    (loadDir ⟨6, 65536, false, false, true, true, true, true, true⟩
       (some ((snapEncode ⟨false, 2, List.replicate 32 2, [[0xb1], [0xb2]]⟩).take 51))
       (some (snapEncode ⟨false, 1, List.replicate 32 1, [[0xa1]]⟩)) false).snap.recs = [[0xb1], [0xa1]] := by
   decide +kernel
+
+/-- **load_memory_bounded.** With the two guards as the current source writes them (`retryShape.boundsCount`,
+    `.boundsLen`, regenerated; fix a45f580a): whatever a file contains, the record count the loader pre-sizes its maps for
+    is at most the file's length, every length it passes to `Memory_Malloc` is at most the file's length (in particular
+    below 2^63 — `int(le)` is not negative — for every file that can exist), and all these lengths together are at most
+    twice the file's length (the records that are there, plus at most one request whose `io.ReadFull` then fails). So the
+    hypothesis under which `load_fallback_exact` speaks — the allocations return — is one about memory of the order of the
+    file, not about the file's contents. -/
+theorem load_memory_bounded (f : Bytes) :
+    (∀ c, (memAsk Gen.UtxoLoaderFacts.retryShape (some f)).mapsFor = some c → c ≤ f.length) ∧
+    (∀ le ∈ (memAsk Gen.UtxoLoaderFacts.retryShape (some f)).mallocs, le ≤ f.length) ∧
+    (memAsk Gen.UtxoLoaderFacts.retryShape (some f)).mallocs.sum ≤ 2 * f.length :=
+  memAsk_bounded _ rfl rfl f
+
+/-- **load_requests_of_readable.** The walk `memAsk` is the loader's: on a file that can be read to its end the requests are
+    the header's count and exactly the lengths of the records that are loaded (`snapDecode`), in order. -/
+theorem load_requests_of_readable (f : Bytes) (s : Snap) (h : snapDecode f = some s) :
+    memAsk Gen.UtxoLoaderFacts.retryShape (some f) = ⟨some s.recs.length, s.recs.map List.length⟩ := by
+  unfold snapDecode at h
+  unfold memAsk
+  split at h
+  · cases h
+  · rename_i hl
+    simp only at h
+    split at h
+    · cases h
+    · rename_i recs hr
+      injection h with h; subst h
+      have hcnt := decRecs_count_le _ _ recs hr
+      have hg : ¬ f.length < leVal ((f.drop 40).take 8) := by simp only [List.length_drop] at hcnt; omega
+      simp only [hl, ↓reduceIte, hg, decide_false, Bool.and_false, Bool.false_eq_true,
+        mallocs_of_ok _ f.length _ _ recs hr (by simp), decRecs_length _ _ _ hr]
+
+/-- the 97-byte file of the finding: header with count 1, length prefix `ff 00 00 00 00 00 00 00 80` (2^63), 40 bytes -/
+def garbageLenFile : Bytes :=
+  List.replicate 40 0 ++ [1, 0, 0, 0, 0, 0, 0, 0] ++ [0xff, 0, 0, 0, 0, 0, 0, 0, 0x80] ++ List.replicate 40 0
+
+/-- **load_unbounded_length_counterexample.** The guard is needed: a loader without `if le > file_size` (everything else as
+    in the source) asks `Memory_Malloc` for 2^63 bytes on a 97-byte file (`int(le)` < 0: `makeslice: len out of range`, out
+    of `NewUnspentDb`, no fall-back to UTXO.old — seen on the real code before fix a45f580a); with the guard it asks for
+    nothing and fails over. -/
+theorem load_unbounded_length_counterexample :
+    memAsk { Gen.UtxoLoaderFacts.retryShape with boundsLen := false } (some garbageLenFile) = ⟨some 1, [2 ^ 63]⟩ ∧
+    memAsk Gen.UtxoLoaderFacts.retryShape (some garbageLenFile) = ⟨some 1, []⟩ ∧
+    (loadDir Gen.UtxoLoaderFacts.retryShape (some garbageLenFile)
+      (some (snapEncode ⟨false, 7, List.replicate 32 1, [[0xa1]]⟩)) false).snap = ⟨false, 7, List.replicate 32 1, [[0xa1]]⟩ := by
+  refine ⟨by decide +kernel, by decide +kernel, by decide +kernel⟩
+
+/-- **load_unbounded_count_counterexample.** Likewise the header's count: without `if u64 > file_size` a 48-byte file makes
+    the loader pre-size its 256 maps for 2^40 records (`fatal error: out of memory` on the real code before the fix). -/
+theorem load_unbounded_count_counterexample :
+    (memAsk { Gen.UtxoLoaderFacts.retryShape with boundsCount := false }
+      (some (List.replicate 40 0 ++ [0, 0, 0, 0, 0, 1, 0, 0]))).mapsFor = some (2 ^ 40) ∧
+    (memAsk Gen.UtxoLoaderFacts.retryShape (some (List.replicate 40 0 ++ [0, 0, 0, 0, 0, 1, 0, 0]))).mapsFor = none := by
+  refine ⟨by decide +kernel, by decide +kernel⟩
 
 /-! ## records on their way through shared state (Model/UtxoShared.lean; the facts are regenerated from the source) -/
 
